@@ -43,11 +43,24 @@ type procResult struct {
 }
 
 func runProc(c *fw.Ctx, stdin string, args ...string) (procResult, error) {
+	return runProcF(c, stdin, "", args...)
+}
+
+// runProcF: stdinFile != "" connects the child's stdin to that regular file (a shell's
+// `< file`); otherwise stdin (if any) is fed through a pipe.
+func runProcF(c *fw.Ctx, stdin, stdinFile string, args ...string) (procResult, error) {
 	bin := os.Getenv("VERIF_NS_BIN")
 	cmd := exec.Command(bin, args...)
 	var so, se bytes.Buffer
 	cmd.Stdout, cmd.Stderr = &so, &se
-	if stdin != "" {
+	if stdinFile != "" {
+		f, err := os.Open(stdinFile)
+		if err != nil {
+			return procResult{}, err
+		}
+		defer f.Close()
+		cmd.Stdin = f
+	} else if stdin != "" {
 		cmd.Stdin = strings.NewReader(stdin)
 	}
 	// keep the child from talking to the network (sentry): there is none, and it must not wait
@@ -342,14 +355,18 @@ func oneCase(c *fw.Ctx, r *rng.R, dir, id, class, text string, cs *gen.Case) boo
 	os.WriteFile(vf, []byte(mustJSON(cs.Vars)), 0o644)
 	os.WriteFile(bf, []byte(balancesJSON(cs)), 0o644)
 	os.WriteFile(mf, []byte(mustJSON(cs.Meta)), 0o644)
+	rf := filepath.Join(dir, "raw.json")
+	os.WriteFile(rf, []byte(raw), 0o644)
 	channels := []struct {
-		name  string
-		stdin string
-		args  []string
+		name      string
+		stdin     string
+		stdinFile string
+		args      []string
 	}{
-		{"raw", "", append([]string{"run", "--raw", raw, "--output-format", "json"}, flagArgs...)},
-		{"stdin", raw, append([]string{"run", "--stdin", "--output-format", "json"}, flagArgs...)},
-		{"files", "", append([]string{"run", script, "-v", vf, "-b", bf, "-m", mf, "--output-format", "json"}, flagArgs...)},
+		{"raw", "", "", append([]string{"run", "--raw", raw, "--output-format", "json"}, flagArgs...)},
+		{"stdin", raw, "", append([]string{"run", "--stdin", "--output-format", "json"}, flagArgs...)},
+		{"stdin_file", "", rf, append([]string{"run", "--stdin", "--output-format", "json"}, flagArgs...)},
+		{"files", "", "", append([]string{"run", script, "-v", vf, "-b", bf, "-m", mf, "--output-format", "json"}, flagArgs...)},
 	}
 	big := false
 	for _, p := range libOutPostings(libOut) {
@@ -358,7 +375,7 @@ func oneCase(c *fw.Ctx, r *rng.R, dir, id, class, text string, cs *gen.Case) boo
 		}
 	}
 	for _, ch := range channels {
-		pr, err := runProc(c, ch.stdin, ch.args...)
+		pr, err := runProcF(c, ch.stdin, ch.stdinFile, ch.args...)
 		if err != nil {
 			panic(err)
 		}
